@@ -177,6 +177,9 @@ func registerIntrinsics(ex *Executor) {
 		return ex.yield(st, cc)
 	}
 	I["@verifSyncMapKeys"] = func(ex *Executor, st *State, cc *CallCtx, args []Val) (Val, ctl) {
+		if ex.maybeSwitch(st) {
+			return nil, cSwitch
+		}
 		p := args[0].(Ptr)
 		sm := ex.load(st, p).(*SyncMapV)
 		es := make([]Val, len(sm.Entries))
@@ -247,6 +250,9 @@ func registerIntrinsics(ex *Executor) {
 		return nil, cBlock
 	}
 	I["(*sync.Map).Load"] = func(ex *Executor, st *State, cc *CallCtx, args []Val) (Val, ctl) {
+		if ex.maybeSwitch(st) {
+			return nil, cSwitch
+		}
 		p := args[0].(Ptr)
 		sm := ex.load(st, p).(*SyncMapV)
 		i := ex.findEntry(st, sm.Entries, args[1])
@@ -256,6 +262,9 @@ func registerIntrinsics(ex *Executor) {
 		return TupleV{sm.Entries[i].V, smt.True}, cNext
 	}
 	I["(*sync.Map).Store"] = func(ex *Executor, st *State, cc *CallCtx, args []Val) (Val, ctl) {
+		if ex.maybeSwitch(st) {
+			return nil, cSwitch
+		}
 		p := args[0].(Ptr)
 		sm := ex.load(st, p).(*SyncMapV)
 		i := ex.findEntry(st, sm.Entries, args[1])
@@ -272,6 +281,9 @@ func registerIntrinsics(ex *Executor) {
 		return nil, cNext
 	}
 	I["(*sync.Map).Delete"] = func(ex *Executor, st *State, cc *CallCtx, args []Val) (Val, ctl) {
+		if ex.maybeSwitch(st) {
+			return nil, cSwitch
+		}
 		p := args[0].(Ptr)
 		sm := ex.load(st, p).(*SyncMapV)
 		i := ex.findEntry(st, sm.Entries, args[1])
